@@ -210,10 +210,22 @@ def run_case(env, kind, depth, injections, caller, envs, varsloc, entry, source_
                     yaml.safe_dump(doc, f)
                 pipe = ProcessingPipelineResolver().resolve([env.pipefile])
             rule = SigmaRule.from_dict({"title": "t", "logsource": {"category": "c"}, "detection": {"sel": {"f|expand": "%P%"}, "condition": "sel"}})
-            out = V.make_backend_class(V.K())(pipe).convert(SigmaCollection([rule]))
+            backend = V.make_backend_class(V.K())(pipe)
+            out = backend.convert(SigmaCollection([rule]))
             outcome = ("ok", str(out)[:80])
         except SigmaSecurityError as e:
             outcome = ("security-error",)
+            # the refusal is not a one-off: the same pipeline / backend objects are used for two more rules
+            # (every capability event of these attempts is recorded with the case)
+            for attempt in range(2):
+                try:
+                    r2 = SigmaRule.from_dict({"title": f"t{attempt}", "logsource": {"category": "c"}, "detection": {"sel": {"g|expand": "%P%"}, "condition": "sel"}})
+                    if "backend" in locals():
+                        backend.convert(SigmaCollection([r2]))
+                    elif "pipe" in locals():
+                        V.make_backend_class(V.K())(pipe, collect_errors=True).convert(SigmaCollection([r2]))
+                except Exception:
+                    pass
         except SigmaConfigurationError as e:
             outcome = ("config-error", str(e)[:120])
         except SigmaError as e:
@@ -256,8 +268,10 @@ def judge(res, env, kind, depth, injections, caller, envs, varsloc="inside", ent
         res["nontrivial"].add(h64(case))
     events, outcome = run_case(env, kind, depth, injections, caller, envs, varsloc, entry, source_path)
     hits = capability_events(kind, events, varsloc)
-    restricted = bool(caller.get("vars_allowed_paths")) or (entry == "from_yaml" and source_path) or entry == "resolver"
+    restricted = caller.get("vars_allowed_paths") is not None or (entry == "from_yaml" and source_path) or entry == "resolver"
     allowed = policy(kind, caller, envs, depth, varsloc, restricted)
+    if caller.get("vars_allowed_paths") == () and kind in ("post_template", "fin_template") and allowed:
+        allowed = False  # an empty list of allowed directories is in force: no variables file lies inside it
     if entry == "resolver":
         allowed = policy(kind, {}, envs, depth, varsloc, True)
     res["outcomes"].add(h64([bool(hits), outcome[0]]))
@@ -332,7 +346,7 @@ def run_shard(shard, tier, seed):
         elif sub == "vars":
             for depth in depths_for(kind, tier):
                 for loc in ("inside", "outside", "symlink", "sibling"):
-                    for vap in (None, "dir"):
+                    for vap in (None, "dir", "empty"):
                         for sp in (False, True):
                             for entry in ("from_yaml", "from_dict"):
                                 if entry == "from_dict" and sp:
@@ -340,7 +354,7 @@ def run_shard(shard, tier, seed):
                                 for how in ("flag", "env"):
                                     caller = {"allow_template_vars": True} if how == "flag" else {}
                                     if vap:
-                                        caller["vars_allowed_paths"] = (env.allowed,)
+                                        caller["vars_allowed_paths"] = (env.allowed,) if vap == "dir" else ()
                                     envs = {VARS_ENV: "1"} if how == "env" else {}
                                     judge(res, env, kind, depth, [], caller, envs, varsloc=loc, entry=entry, source_path=sp, sub="vars")
                     # injected vars_allowed_paths must not widen the caller's restriction
